@@ -228,11 +228,20 @@ def c01_3(ctx: Ctx) -> RuleResult:
                     "" if ok else f"`{norm_stmt(early[0]) if early else 'else'}` leaves the loop: filters after an unused one are never applied to the rows mapped to them",
                     construct=f"{f.name}: rows of all filters visited")
             it = X.at(f, lp.iter)
+            # the filter object is element k of the list of filters: `for k, flt in enumerate(L)`, or `L[k]` with k over range(len(L))
+            if recv[0] == "iter":
+                flist, kpos = recv[1], ("enumidx", recv[1], recv[2])
+            elif recv[0] == "sub" and _element_at(recv, recv[2]) is not None:
+                flist, kpos = recv[1], recv[2]
+            else:
+                flist, kpos = None, None
+
             def enumerates_all(t_):
-                return t_[0] == "call" and t_[1] == ("builtin", "enumerate") and t_[2] and t_[2][0] == recv[1]
+                return (t_[0] == "call" and t_[1] == ("builtin", "enumerate") and t_[2] and t_[2][0] == flist) or (
+                    t_[0] == "call" and t_[1] == ("builtin", "range") and len(t_[2]) == 1 and t_[2][0] == ("call", ("builtin", "len"), (flist,), ()))
 
             # directly, or through a comprehension over the enumeration (its filter is checked as a skip condition below)
-            ok = (enumerates_all(it) or (it[0] == "comp" and len(it[3]) == 1 and enumerates_all(it[3][0][1]))) if recv[0] == "iter" else False
+            ok = flist is not None and (enumerates_all(it) or (it[0] == "comp" and len(it[3]) == 1 and enumerates_all(it[3][0][1])))
             res.add(f, lp, "the loop enumerates the full list of filter objects (index k pairs with filter k)", ok,
                     "" if ok else f"loop iterates `{show(it, 60)}`", construct=f"{f.name}: rows enumerate all filters")
         # stores of the result
@@ -250,7 +259,7 @@ def c01_3(ctx: Ctx) -> RuleResult:
         for rec in stores:
             st, tgt, row = rec.node, rec.tgt, rec.row
             cmps = [s for s in subterms(row) if s[0] == "cmp" and s[1] == "=="]
-            ok_pair = any((s[3][0] == "enumidx" and recv[0] == "iter" and s[3][1] == recv[1] and s[3][2] == recv[2]) for s in cmps)
+            ok_pair = lp is not None and kpos is not None and any(s[3] == kpos or s[2] == kpos for s in cmps)
             want = "nonlinear_constraints" if "constraint" in tgt else "objectives"
             ok_map = any(ends_with_attrs(s[2], want, "realization_filters") or any(ends_with_attrs(a, want, "realization_filters") for a in alts(s[2])) or
                          any(ends_with_attrs(x, want, "realization_filters") for x in subterms(s[2]) if x[0] == "attr") for s in cmps)
